@@ -81,8 +81,10 @@ func (f *chainFam) Reset() M {
 			}
 		}()
 		muts := []chain.GenMut{smallParams}
-		if f.rng.Intn(6) == 0 { // governance-set emission at the top of the int64 range (valid parameters: only >= 0 is required)
-			tpb := []int64{100_000_000_000_000_000, 200_000_000_000_000_000, 300_000_000_000_000_000, math.MaxInt64, math.MaxInt64 / 50, math.MaxInt64 / 2}[f.rng.Intn(6)]
+		if f.rng.Intn(4) == 0 { // governance-set emission at the top of the int64 range (valid parameters: only >= 0 is required)
+			tpbs := []int64{100_000_000_000_000_000, 200_000_000_000_000_000, 300_000_000_000_000_000, 500_000_000_000_000_000,
+				700_000_000_000_000_000, 1_200_000_000_000_000_000, math.MaxInt64 / 50, math.MaxInt64 / 2, math.MaxInt64}
+			tpb := tpbs[f.rng.Intn(len(tpbs))]
 			muts = append(muts, func(gs app.GenesisState, a *app.JackalApp) {
 				var mg mtypes.GenesisState
 				a.AppCodec().MustUnmarshalJSON(gs["jklmint"], &mg)
